@@ -518,7 +518,8 @@ func c16GoroutineDump(label string) c16Dump {
 			cls = "queue-full-continuation@" + who
 		case strings.HasSuffix(top, "vm.(*ThreadPool).AddTask"):
 			cls = "queue-full-addtask@" + who
-		case strings.HasPrefix(top, "sync.") && has("vm.(*Promise).AwaitSync"):
+		case (strings.HasPrefix(top, "sync.") || strings.Contains(top, "vm.(*Promise).AwaitSync")) && has("vm.(*Promise).AwaitSync"):
+			// AwaitSync parks in sync.WaitGroup.Wait or, since the cancellation repair, in a select on the promise's done channel
 			cls = "await_sync@" + who
 		case strings.HasPrefix(top, "sync.") && has("sync.(*Mutex).Lock") && (len(fr) > 3 && (strings.Contains(fr[3], "vm.(*Promise)") || strings.HasSuffix(fr[3], "vm.(*Thread).run"))):
 			cls = "promise-lock@" + who
